@@ -661,6 +661,20 @@ func (x *c07Index) stored() c07Stored {
 		if len(d.Vector) != x.dim {
 			x.cs.Fail("VGet(%s) returned a vector of dimension %d, index dimension is %d", id, len(d.Vector), x.dim)
 		}
+		// The brute-force reference works on the vectors as the index holds them. For a
+		// cosine/float32 index that must be the unit-length form of what was supplied,
+		// otherwise "exact search" over the stored values is not cosine search over the
+		// user's vectors (zero vectors stay zero).
+		if x.metric == distance.Cosine && x.prec == distance.Float32 {
+			if sup, ok := x.live[id]; ok {
+				want := c07Normalize32(sup)
+				for j := range want {
+					if diff := float64(d.Vector[j]) - float64(want[j]); diff > 1e-4 || diff < -1e-4 {
+						x.cs.Fail("VGet(%s) on a cosine index returns %s, which is not the unit-length form %s of the supplied vector: searches rank by length, not by angle", id, c07VecStr(d.Vector), c07VecStr(want))
+					}
+				}
+			}
+		}
 		st.ids = append(st.ids, id)
 		st.vecs = append(st.vecs, append([]float32(nil), d.Vector...)) // copy: the slice may alias the arena
 	}
